@@ -103,13 +103,15 @@ def check(tier):
 
     # (b) protocol validation on scheduler logs: every call runs inside a critical section
     cases = []
-    for i in range(120 if tier == "quick" else 1500):
-        kind = KINDS[i % len(KINDS)]
-        prog = conccheck.gen_program(rng, kind, 2, 2)
-        # make sure every method of the kind appears
-        m = conccheck.METHODS[kind]
-        prog["thr"][0][0] = conccheck.gen_call(rng, kind, prog["cfg"]["keys"], m[(i // len(KINDS)) % len(m)])
-        cases.append((prog, " ".join(conccheck.schedules_for(rng, prog, 1)[0:1])))
+    reps = 1 if tier == "quick" else 6
+    for kind in KINDS:
+        for op in conccheck.METHODS[kind]:
+            peeks = [0, 1] if (kind in vlib.PEEK_KINDS and op in ("find", "findc", "findr", "findf")) else [None]
+            for pk in peeks:
+                for _ in range(reps):
+                    prog = conccheck.gen_program(rng, kind, 2, 1)
+                    prog["thr"][0][0] = conccheck.gen_call(rng, kind, prog["cfg"]["keys"], op, pk)
+                    cases.append((prog, conccheck.schedules_for(rng, prog, 1)[0]))
     sr = conccheck.run_sched_batch(cases, os.path.join(wd, "sched"), "p")
     if sr["infra"]:
         infra = sr["infra"]
